@@ -7,11 +7,15 @@
 //	       print-reparse: String() re-parsed gives the same bits on every node, same specificity/pseudo-element
 //	       empty-value:   [k^=""] [k$=""] [k*=""] [k~=""] match no node
 //	       specificity:   (ids, classes+attributes+pseudo-classes, types+pseudo-elements) recomputed from the AST
-//	       probe:         a fixed table of (selector, document, expected elements) read off Selectors 3/4
+//	       corpus:        /verif/corpus/C05/*.json — (selector, document, expected elements) read off Selectors 3/4,
+//	                      incl. the minimal inputs of the repaired defects KF05-1..7; run first
 package c05
 
 import (
+	"encoding/json"
 	"fmt"
+	"os"
+	"path/filepath"
 	"strconv"
 	"strings"
 
@@ -53,6 +57,8 @@ func nodeX(n *html.Node) sx.X {
 		k = "t"
 	case html.CommentNode:
 		k = "c"
+	case html.DocumentNode:
+		k = "d"
 	}
 	attrs := make([]sx.X, len(n.Attr))
 	for i, a := range n.Attr {
@@ -101,11 +107,12 @@ var (
 	ids      = []string{"i1", "i2"}
 	attrKeys = []string{"a", "b", "data-x"}
 	// attribute values: blanks, doubled / leading / trailing spaces, dashes, case variants
-	attrVals = []string{"", "x", "y", "x y", "x  y", " x", "x ", "  ", " ", "x-y", "x-", "-", "X", "xY", "xy", "yx", "x\ty", "c1", "c1 c2", "c2  c1", " k", "é", "x\"y", "x\\y"}
+	attrVals = []string{"", "x", "y", "x y", "x  y", " x", "x ", "  ", " ", "x-y", "x-", "-", "X", "xY", "xy", "yx", "x\ty", "c1", "c1 c2", "c2  c1", " k", "é", "x\"y", "x\\y", "\u212a", "K", "k", "\u017fx", "\u00a0"}
 	texts    = []string{"", " ", "\n", " \t\n\f\r", "t", " t ", "x y"}
 )
 
 type treeOpts struct {
+	odd  bool // the escapes stream: odd tag / class / id / attribute names and values
 	wild bool // outside the hypotheses of the theorems: nested html, exotic spaces, attributes on non-elements, no document node
 }
 
@@ -115,7 +122,11 @@ func genAttrs(r *rng.R, o treeOpts) []html.Attribute {
 		n := r.Range(1, 2)
 		var cs []string
 		for i := 0; i < n; i++ {
-			cs = append(cs, rng.Pick(r, classes...))
+			if o.odd && r.Bool() {
+				cs = append(cs, rng.Pick(r, oddNames...))
+			} else {
+				cs = append(cs, rng.Pick(r, classes...))
+			}
 		}
 		sep := rng.Pick(r, " ", " ", "  ", "\t", "\n")
 		v := strings.Join(cs, sep)
@@ -131,10 +142,17 @@ func genAttrs(r *rng.R, o treeOpts) []html.Attribute {
 		as = append(as, html.Attribute{Key: "class", Val: v})
 	}
 	if r.P(1, 3) {
-		as = append(as, html.Attribute{Key: "id", Val: rng.Pick(r, ids...)})
+		id := rng.Pick(r, ids...)
+		if o.odd && r.Bool() {
+			id = rng.Pick(r, oddNames...)
+		}
+		as = append(as, html.Attribute{Key: "id", Val: id})
 	}
 	for r.P(2, 5) && len(as) < 4 {
 		k := rng.Pick(r, attrKeys...)
+		if o.odd && r.Bool() {
+			k = strings.ToLower(rng.Pick(r, oddNames...))
+		}
 		dup := false
 		for _, a := range as {
 			dup = dup || a.Key == k
@@ -142,7 +160,11 @@ func genAttrs(r *rng.R, o treeOpts) []html.Attribute {
 		if dup && !o.wild {
 			break
 		}
-		as = append(as, html.Attribute{Key: k, Val: rng.Pick(r, attrVals...)})
+		v := rng.Pick(r, attrVals...)
+		if o.odd && r.Bool() {
+			v = rng.Pick(r, append(oddVals, oddNames...)...)
+		}
+		as = append(as, html.Attribute{Key: k, Val: v})
 	}
 	return as
 }
@@ -159,6 +181,9 @@ func genChildren(r *rng.R, parent *html.Node, budget *int, depth int, o treeOpts
 			tag := rng.Pick(r, tags...)
 			if o.wild && r.P(1, 10) {
 				tag = "html"
+			}
+			if o.odd && r.P(1, 3) {
+				tag = strings.ToLower(rng.Pick(r, oddNames...))
 			}
 			e := mk(html.ElementNode, tag, genAttrs(r, o)...)
 			parent.AppendChild(e)
@@ -241,14 +266,67 @@ type selGen struct {
 
 func (g *selGen) f(s string) { g.feat[s] = true }
 
+// names that need escaping when written as CSS identifiers (leading digits / hyphens, specials, control
+// characters, non-ASCII); the escapes stream uses them in the trees too, so that the selectors match something
+var oddNames = []string{"123", "1", "-1", "-1x", "--", "-", "-a", "_", "a.b", "#x", "c1 ", "a b", ":k", "a,b", "a>b", "a+b~c", "a[b]", "a(b)",
+	"x\"y", "x'y", "x\\y", "a\x03b", "\x01", "\x7f", "a\tb", "ét", "\u6f22", "\U0001f600x", "Az", "a!b", "a=b", "a|b", "a*b", "a/b", "a@b", "9lives", "-9", "a\nb"}
+
+// odd attribute values: quotes, backslashes, newlines, control characters, non-ASCII
+var oddVals = []string{"x\"y", "x'y", "x\\y", "\\", "\"", "a\nb", "a\rb", "a\fb", "a\tb", "\x01", "a\x7fb", "é\"", "\u6f22\\", "x\\\"y", "]", "[a=\"b\"]", "a\\\nb", "\\a", "\\31 "}
+
+func isNameChar(c rune) bool {
+	return 'a' <= c && c <= 'z' || 'A' <= c && c <= 'Z' || c == '_' || c > 127 || c == '-' || '0' <= c && c <= '9'
+}
+
+// cssIdent writes name as a CSS identifier, choosing randomly among the escape styles
+func cssIdent(r *rng.R, name string) string {
+	allDashes := strings.Trim(name, "-") == ""
+	lead := len(name) - len(strings.TrimLeft(name, "-")) // index of the first rune after the leading hyphens
+	var b strings.Builder
+	hex := func(c rune) {
+		switch r.Intn(3) {
+		case 0:
+			fmt.Fprintf(&b, "\\%x ", c)
+		case 1:
+			fmt.Fprintf(&b, "\\%06x", c)
+		default:
+			fmt.Fprintf(&b, "\\%X ", c)
+		}
+	}
+	for i, c := range name {
+		isHex := '0' <= c && c <= '9' || 'a' <= c && c <= 'f' || 'A' <= c && c <= 'F'
+		switch {
+		case '0' <= c && c <= '9' && i == lead:
+			hex(c)
+		case c == '-' && allDashes:
+			b.WriteString("\\-")
+		case isNameChar(c):
+			if r.P(1, 8) {
+				hex(c)
+			} else {
+				b.WriteRune(c)
+			}
+		case c < 0x20 || c == 0x7f:
+			hex(c)
+		default: // printable ASCII special
+			if r.Bool() && !isHex {
+				b.WriteByte('\\')
+				b.WriteRune(c)
+			} else {
+				hex(c)
+			}
+		}
+	}
+	return b.String()
+}
+
 func (g *selGen) ident(pool []string) string {
 	r := g.r
-	s := rng.Pick(r, pool...)
-	if g.escapes && r.P(1, 6) {
+	if g.escapes && r.P(1, 3) {
 		g.f("escape")
-		return rng.Pick(r, `\31 23`, `a\.b`, `\#x`, `c\31 `, `\-1`, `-\31 x`, `\e9 t`, `a\ b`, `\000041z`, `\:k`, `a\3 b`)
+		return cssIdent(r, rng.Pick(r, oddNames...))
 	}
-	return s
+	return rng.Pick(r, pool...)
 }
 
 func (g *selGen) nth() string {
@@ -308,7 +386,7 @@ func quoteCSS(v string, q byte) string {
 		case c == q || c == '\\':
 			b.WriteByte('\\')
 			b.WriteByte(c)
-		case c == '\n' || c == '\r' || c == '\f':
+		case c == '\n' || c == '\r' || c == '\f' || (c < 0x20 && c%2 == 0):
 			fmt.Fprintf(&b, "\\%x ", c)
 		default:
 			b.WriteByte(c)
@@ -335,9 +413,9 @@ func isPlainIdent(v string) bool {
 func (g *selGen) attr() string {
 	r := g.r
 	key := rng.Pick(r, "a", "b", "data-x", "class", "id", "A")
-	if g.escapes && r.P(1, 12) {
+	if g.escapes && r.P(1, 4) {
 		g.f("escape")
-		key = rng.Pick(r, `a\.b`, `\31 k`, `da\ta-x`)
+		key = cssIdent(r, rng.Pick(r, oddNames...))
 	}
 	if r.P(1, 6) {
 		g.f("attr-has")
@@ -349,9 +427,9 @@ func (g *selGen) attr() string {
 	if !g.escapes && strings.ContainsAny(val, "\"\\") {
 		val = "x"
 	}
-	if val == "" || val == " " || val == "  " {
-		// the empty / blank values are judged in their own stream; keep the main stream inside the proved domain
-		val = rng.Pick(r, "x", "y", "c1", "x-y")
+	if g.escapes && r.P(1, 2) {
+		g.f("odd-value")
+		val = rng.Pick(r, append(oddVals, oddNames...)...)
 	}
 	var vs string
 	if isPlainIdent(val) && r.Bool() {
@@ -360,7 +438,7 @@ func (g *selGen) attr() string {
 		vs = quoteCSS(val, rng.Pick(r, byte('"'), byte('\'')))
 	}
 	flag := ""
-	if r.P(1, 4) && isASCII(val) {
+	if r.P(1, 4) {
 		g.f("attr-i")
 		flag = rng.Pick(r, " i", " I", "i")
 		if flag == "i" && vs == val { // `[a=xi]` would read xi
@@ -862,45 +940,41 @@ func (c *runner) emptyValue(r *rng.R, n int) {
 	}
 }
 
-type probe struct {
-	name, sel, doc string
-	want           []string // ids of the elements that must match, in document order
+type corpusCase struct {
+	Name string   `json:"name"`
+	What string   `json:"what"`
+	Sel  string   `json:"sel"`
+	Doc  string   `json:"doc"`
+	Want []string `json:"want"` // ids of the elements that must match, in document order
+	Spec []int    `json:"spec"` // optional: Specificity() of the first selector
 }
 
-// expectations read off Selectors 3/4 (and HTML: document white space = ASCII white space,
-// the `i` flag = ASCII case-insensitive, attribute selectors and combinators see elements only)
-var probes = []probe{
-	{"prefix-empty", `[a^=""]`, `<p id=1 a="x"><p id=2 a="">`, nil},
-	{"suffix-empty", `[a$=""]`, `<p id=1 a="x"><p id=2 a="">`, nil},
-	{"substring-empty", `[a*=""]`, `<p id=1 a="x"><p id=2 a="">`, nil},
-	{"includes-empty", `[a~=""]`, `<p id=1 a="x  y"><p id=2 a=" x"><p id=3 a="">`, nil},
-	{"includes-space", `[a~="x y"]`, `<p id=1 a="x y">`, nil},
-	{"prefix-blank-attr", `[a^=" "]`, `<p id=1 a="  "><p id=2 a=" x"><p id=3 a="x">`, []string{"1", "2"}},
-	{"substring-blank-attr", `[a*=" "]`, `<p id=1 a=" "><p id=2 a="x y"><p id=3 a="x">`, []string{"1", "2"}},
-	{"dash", `[a|="x"]`, `<p id=1 a="x"><p id=2 a="x-y"><p id=3 a="xy"><p id=4 a="-x">`, []string{"1", "2"}},
-	{"i-flag-ascii", `[a="k" i]`, "<p id=1 a=\"K\"><p id=2 a=\"\u212a\"><p id=3 a=k>", []string{"1", "3"}},
-	{"empty-nbsp", `p:empty`, "<p id=1></p><p id=2> \n</p><p id=3><!--c--></p><p id=4>\u00a0</p><p id=5>x</p><p id=6><b></b></p>", []string{"1", "2", "3"}},
-	{"doctype-attr-sibling", `[public] ~ html`, `<!DOCTYPE html PUBLIC "x" "y"><html id=1><body id=2>`, nil},
-	{"root-is-document-element", `:root`, `<html id=1><body id=2><svg id=3><html id=4></html></svg>`, []string{"1"}},
-	{"nth-negative-a", `p:nth-child(-n+2)`, `<body><p id=1><p id=2><p id=3>`, []string{"1", "2"}},
-	{"nth-negative-a-b", `p:nth-child(-2n+5)`, `<body><p id=1><p id=2><p id=3><p id=4><p id=5><p id=6>`, []string{"1", "3", "5"}},
-	{"nth-last-of-type", `p:nth-last-of-type(2n)`, `<body><p id=1><a id=x></a><p id=2>t<p id=3><a id=y></a><p id=4>`, []string{"1", "3"}},
-	{"adjacent-over-text", `a + b`, `<body><a id=1></a> text <!--c--><b id=2></b><b id=3></b>`, []string{"2"}},
-	{"sibling", `a ~ b`, `<body><b id=0></b><a id=1></a><i id=i></i><b id=2></b><b id=3></b>`, []string{"2", "3"}},
-	{"not-list", `p:not(.x, #two)`, `<body><p id=1><p id=two><p id=3 class=x><p id=4 class="y x">`, []string{"1"}},
-	{"has", `div:has(b)`, `<body><div id=1><p><b></b></p></div><div id=2></div><b id=3></b>`, []string{"1"}},
-	{"only-of-type", `b:only-of-type`, `<body><p id=p><b id=1></b><a id=a></a></p><p id=q><b id=2></b><b id=3></b></p>`, []string{"1"}},
-}
-
-func (c *runner) probes() error {
-	for _, p := range probes {
-		g, err := selector.ParseGroup(p.sel)
+// corpus runs /verif/corpus/C05/*.json first: expectations read off Selectors 3/4 (HTML: document white
+// space = ASCII white space, the i flag = ASCII case-insensitive, attribute selectors and combinators see
+// elements only), including the minimal inputs of the repaired defects; two files record a documented
+// deviation (their `want` is the code's behaviour).
+func (c *runner) corpus() error {
+	exe, err := os.Executable()
+	if err != nil {
+		return err
+	}
+	files, _ := filepath.Glob(filepath.Join(filepath.Dir(filepath.Dir(exe)), "corpus", "C05", "*.json"))
+	for _, f := range files {
+		var p corpusCase
+		b, err := os.ReadFile(f)
+		if err == nil {
+			err = json.Unmarshal(b, &p)
+		}
+		if err != nil || p.Sel == "" {
+			return fmt.Errorf("corpus file %s: unreadable or empty (%v)", f, err)
+		}
+		g, err := selector.ParseGroup(p.Sel)
 		if err != nil {
-			c.add(res.Finding{Kind: "judge", Op: "judge:probe", Input: p.sel, Reason: "does not parse: " + err.Error(), Key: p.name})
+			c.add(res.Finding{Kind: "judge", Op: "judge:corpus", Input: p.Sel, Reason: "does not parse: " + err.Error(), Key: p.Name})
 			continue
 		}
-		doc, _ := html.Parse(strings.NewReader(p.doc))
-		var got []string
+		doc, _ := html.Parse(strings.NewReader(p.Doc))
+		got := []string{}
 		for _, n := range preorder(doc, nil) {
 			if n.Type != html.ElementNode || !g.Match(n) {
 				continue
@@ -913,19 +987,26 @@ func (c *runner) probes() error {
 			}
 			got = append(got, id)
 		}
-		c.out.Count("probe:"+p.name, true)
-		c.out.Hit("judge:probe")
-		if fmt.Sprint(got) != fmt.Sprint(p.want) {
-			c.add(res.Finding{Kind: "judge", Op: "judge:probe", Input: fmt.Sprintf("sel=%s doc=%s", strconv.Quote(p.sel), strconv.Quote(p.doc)),
-				Impl: fmt.Sprint(got), Model: fmt.Sprint(p.want), Reason: "matched elements (by id) differ from the Selectors definition", Key: p.name})
+		c.out.Count("corpus:"+p.Name, true)
+		c.out.Hit("judge:corpus")
+		if fmt.Sprint(got) != fmt.Sprint(p.Want) {
+			c.add(res.Finding{Kind: "judge", Op: "judge:corpus", Input: fmt.Sprintf("sel=%s doc=%s", strconv.Quote(p.Sel), strconv.Quote(p.Doc)),
+				Impl: fmt.Sprint(got), Model: fmt.Sprint(p.Want), Reason: "matched elements (by id) differ from the expectation: " + p.What, Key: p.Name})
 		}
-		// the same documents also go through the model
-		if p.name == "i-flag-ascii" { // outside the model's stated domain (non-ASCII value with the i flag)
-			continue
+		if len(p.Spec) == 3 {
+			if sp := g[0].Specificity(); sp != [3]int{p.Spec[0], p.Spec[1], p.Spec[2]} {
+				c.add(res.Finding{Kind: "judge", Op: "judge:corpus", Input: "sel=" + strconv.Quote(p.Sel), Impl: fmt.Sprint(sp), Model: fmt.Sprint(p.Spec),
+					Reason: "Specificity() differs from the expectation: " + p.What, Key: p.Name})
+			}
 		}
-		if err := c.check(p.sel, doc, 0, map[string]bool{"probe": true}, "probe"); err != nil {
+		// the same case goes through the model, the specificity judge and the print -> re-parse judge
+		if err := c.check(p.Sel, doc, 0, map[string]bool{"corpus": true}, "corpus"); err != nil {
 			return err
 		}
+	}
+	c.out.Notes = append(c.out.Notes, fmt.Sprintf("corpus: %d cases (expectations from the standard, minimal inputs of repaired defects) run first", len(files)))
+	if len(files) == 0 {
+		return fmt.Errorf("corpus /verif/corpus/C05 not found")
 	}
 	return nil
 }
@@ -941,17 +1022,17 @@ func Run(tier string, seed uint64, modelPath, repo string, out *res.Result) erro
 	defer m.Close()
 	c := &runner{m: m, out: out}
 	r := rng.New(seed)
-	nMain, nWild, nEsc, nEmpty, nMal := 4200, 800, 500, 600, 1500
+	nMain, nWild, nEsc, nEmpty, nMal := 4200, 800, 1500, 600, 1500
 	if tier == "thorough" {
-		nMain, nWild, nEsc, nEmpty, nMal = 120000, 30000, 15000, 20000, 60000
+		nMain, nWild, nEsc, nEmpty, nMal = 120000, 30000, 60000, 20000, 60000
 	}
 	out.Rule = "case = (selector group text generated from the supported grammar, tree); the real parser's AST (hook) and the tree go to the Lean model; " +
 		"compared for EVERY node of the tree: match bit of every selector of the group, plus specificity and pseudo-element. " +
 		"Trees: built directly as *html.Node (text/comment siblings, blank/doubled-space attribute values) and, one in three, re-read through html.Render+html.Parse. " +
-		"Streams: main (inside the theorems' hypotheses), wild (nested html, NBSP text, attributes on comments/doctype, fragments), escapes (identifier escapes, quotes in values: exercises String()), " +
-		"malformed (mutated selector text: parse errors must not crash; accepted ones are compared), judges empty-value and probes, thorough: exhaustive small bounds. " +
+		"Streams: main, wild (outside LocalOk: nested html, exotic spaces, attributes on comments/doctype, fragments), escapes (names with leading digits/hyphens, specials, control characters, non-ASCII written with random CSS escapes, values with quotes/backslashes/newlines, the same odd names in the trees: exercises String()), " +
+		"malformed (mutated selector text: parse errors must not crash; accepted ones are compared), judges empty-value and corpus, thorough: exhaustive small bounds. " +
 		"non-trivial = the selector matches at least one node and not all; distinct by selector text + tree"
-	if err := c.probes(); err != nil {
+	if err := c.corpus(); err != nil {
 		return err
 	}
 	c.emptyValue(r.Sub(), nEmpty)
@@ -961,7 +1042,7 @@ func Run(tier string, seed uint64, modelPath, repo string, out *res.Result) erro
 			cr := sr.Sub()
 			seed := cr.Seed()
 			root := genTree(cr, o)
-			if cr.P(1, 3) && !o.wild {
+			if cr.P(1, 3) && !o.wild && !o.odd {
 				root = viaParser(root)
 			}
 			for k := 0; k < 5; k++ {
@@ -980,7 +1061,7 @@ func Run(tier string, seed uint64, modelPath, repo string, out *res.Result) erro
 	if err := run(nWild, treeOpts{wild: true}, false, "wild"); err != nil {
 		return err
 	}
-	if err := run(nEsc, treeOpts{}, true, "escapes"); err != nil {
+	if err := run(nEsc, treeOpts{odd: true}, true, "escapes"); err != nil {
 		return err
 	}
 	// malformed stream: byte-level mutations of valid selectors
